@@ -809,7 +809,17 @@ pub fn run_c16(a: &Args, rep: &mut Report) {
         } else {
             // the second half (arbitrary fields) ranges over ALL supported opcodes, including those the
             // assembler has no mnemonic for: if it accepts the text anyway, the bytes must still be canon(p)
-            gen_prog(&mut rng, if canonical { &ops } else { &all_ops }, canonical, canonical, 600)
+            let mut p = gen_prog(&mut rng, if canonical { &ops } else { &all_ops }, canonical, canonical, 600);
+            if !canonical && rng.chance(1, 8) {
+                // a call of a kind the crate does not know (src 2..15), in a short program: the
+                // disassembler may panic or print something the assembler refuses - but text the
+                // assembler turns into a helper call or a local call is a different instruction
+                p.truncate(rng.below(4) as usize);
+                p.push(Insn::new(CALL, 0, 2 + rng.below(14) as u8, 0, *rng.pick(&[0i32, 1, 5, -1, 0x7fff_ffff, i32::MIN])));
+                p.push(Insn::new(EXIT, 0, 0, 0, 0));
+                rep.count("arbitrary_with_unknown_call_kind");
+            }
+            p
         };
         let bytes = encode_prog(&p);
         rep.case(Some(fnv(&bytes)));
